@@ -1,9 +1,28 @@
 (* C20 driver: appended after c20_model.ml and proto.ml *)
+(* nested API values travel as ["i", "123"] | ["b", true] | ["s", hex] | ["o", hex] | ["d", [[hexkey, value], ...]] *)
+let rec jv_of_json (j : json) : jv =
+  match j with
+  | JArr [JStr "i"; n] -> JVInt (jz n)
+  | JArr [JStr "b"; b] -> JVBool (jbool b)
+  | JArr [JStr "s"; s] -> JVStr (jbytes s)
+  | JArr [JStr "o"; t] -> JVOther (jbytes t)
+  | JArr [JStr "d"; JArr kvs] ->
+      JVDict (SL.map (function JArr [k; v] -> (jbytes k, jv_of_json v) | _ -> raise (Model_error "jv: bad entry")) kvs)
+  | _ -> raise (Model_error "jv: bad value")
+let rec json_of_jv (v : jv) : json =
+  match v with
+  | JVInt z -> JArr [JStr "i"; of_z z]
+  | JVBool b -> JArr [JStr "b"; JBool b]
+  | JVStr s -> JArr [JStr "s"; of_bytes s]
+  | JVOther t -> JArr [JStr "o"; of_bytes t]
+  | JVDict kvs -> JArr [JStr "d"; JArr (SL.map (fun (k, x) -> JArr [of_bytes k; json_of_jv x]) kvs)]
 let () = serve (fun fn req ->
   match fn with
   | "format" -> JStr (string_of_bytes (format (jz (jfield req "n"))))
   | "parse" -> of_option of_n (parse (jbytes (jfield req "s")))
   | "effective" -> of_option (fun b -> JStr (string_of_bytes b))
                    (effective (jbytes (jfield req "amount")) (SL.map jbytes (jlist (jfield req "supports"))))
+  | "dict_to_lbc" -> json_of_jv (to_lbc (jv_of_json (jfield req "v")))
+  | "dict_lookup" -> of_option json_of_jv (lookup (SL.map jbytes (jlist (jfield req "path"))) (jv_of_json (jfield req "v")))
   | "dec_exact" -> of_option (fun (m, k) -> JArr [of_z m; of_n k]) (dec_exact (jbytes (jfield req "s")))
   | _ -> raise (Model_error ("unknown fn " ^ fn)))
